@@ -7,7 +7,8 @@ Local Open Scope Z_scope.
 Inductive tyerr :=
 | EMixedOperands | ENonBoolCond | ENonBoolLogical | EArity | EArgType | EUndefined | ERedeclared
 | EReturnType | EMissingReturnValue | ENotFunction | ELitRange | EAssignType | EVoidValue | EBadPrint
-| EBreakOutsideLoop | ENotCallStmt | EBadCast | EBadUnary | EMissingReturn | EBadMain.
+| EBreakOutsideLoop | ENotCallStmt | EBadCast | EBadUnary | EMissingReturn | EBadMain
+| EUnknownStruct | EFieldCount | EFieldType | EUnknownField | ENotStruct.
 
 Inductive tres (A : Type) := TOk (a : A) | TErr (e : tyerr).
 Arguments TOk {A}. Arguments TErr {A}.
@@ -28,6 +29,7 @@ Definition in_current (x : nat) (e : tenv) : bool :=
   match e with [] => false | s :: _ => match tlookup_scope x s with Some _ => true | None => false end end.
 
 Section WithSigs.
+Variable structs : structs_t.
 Variable sigs : list sig.
 
 Fixpoint check_expr (G : tenv) (e : expr) {struct e} : tres ty :=
@@ -71,9 +73,31 @@ Fixpoint check_expr (G : tenv) (e : expr) {struct e} : tres ty :=
              | _, _ => TErr EArity
              end) es pts
       end
+  | EStructLit sid es =>
+      match nth_error structs sid with
+      | None => TErr EUnknownStruct
+      | Some fts =>
+          (fix flds (es : list expr) (fts : list ity) {struct es} : tres ty :=
+             match es, fts with
+             | [], [] => TOk (TStruct sid)
+             | e1 :: r, t1 :: fr =>
+                 tbind (check_expr G e1) (fun te => if ty_eqb te (TInt t1) then flds r fr else TErr EFieldType)
+             | _, _ => TErr EFieldCount
+             end) es fts
+      end
+  | EField a k =>
+      tbind (check_expr G a) (fun ta =>
+        match ta with
+        | TStruct sid =>
+            match nth_error structs sid with
+            | Some fts => match nth_error fts k with Some t => TOk (TInt t) | None => TErr EUnknownField end
+            | None => TErr EUnknownStruct
+            end
+        | _ => TErr ENotStruct
+        end)
   end.
 
-Definition printable (t : ty) : bool := match t with TInt _ | TBool => true | TVoid => false end.
+Definition printable (t : ty) : bool := match t with TInt _ | TBool => true | TVoid | TStruct _ => false end.
 
 (* check_stmt returns the environment after the statement *)
 Fixpoint check_stmt (ret : ty) (inloop : bool) (G : tenv) (s : stmt) {struct s} : tres tenv :=
@@ -91,6 +115,20 @@ Fixpoint check_stmt (ret : ty) (inloop : bool) (G : tenv) (s : stmt) {struct s} 
       match tlookup x G with
       | None => TErr EUndefined
       | Some t => tbind (check_expr G e) (fun te => if ty_eqb te t then TOk G else TErr EAssignType)
+      end
+  | SAssignField x k e =>
+      match tlookup x G with
+      | Some (TStruct sid) =>
+          match nth_error structs sid with
+          | Some fts =>
+              match nth_error fts k with
+              | Some t => tbind (check_expr G e) (fun te => if ty_eqb te (TInt t) then TOk G else TErr EAssignType)
+              | None => TErr EUnknownField
+              end
+          | None => TErr EUnknownStruct
+          end
+      | Some _ => TErr ENotStruct
+      | None => TErr EUndefined
       end
   | SIf c a b =>
       tbind (check_expr G c) (fun tc =>
@@ -161,20 +199,20 @@ End WithSigs.
 
 Definition sig_of (f : fn) : sig := (map snd (fparams f), fret f).
 
-Fixpoint check_fns (sigs : list sig) (fs : list fn) : tres unit :=
+Fixpoint check_fns (structs : structs_t) (sigs : list sig) (fs : list fn) : tres unit :=
   match fs with
   | [] => TOk tt
-  | f :: r => tbind (check_fn sigs f) (fun _ => check_fns sigs r)
+  | f :: r => tbind (check_fn structs sigs f) (fun _ => check_fns structs sigs r)
   end.
 
-Definition check_prog (p : prog) : tres unit :=
+Definition check_prog (structs : structs_t) (p : prog) : tres unit :=
   match rev p with
   | [] => TErr EBadMain
   | m :: _ =>
       match fparams m, fret m with
-      | [], TVoid => check_fns (map sig_of p) p
+      | [], TVoid => check_fns structs (map sig_of p) p
       | _, _ => TErr EBadMain
       end
   end.
 
-Definition accepts (p : prog) : bool := match check_prog p with TOk _ => true | TErr _ => false end.
+Definition accepts (structs : structs_t) (p : prog) : bool := match check_prog structs p with TOk _ => true | TErr _ => false end.
